@@ -512,6 +512,16 @@ func (x *Exec) evalBinary(fr *frame, st *State, n *ast.BinaryExpr, opts *evalOpt
 	_, okB := b.(Sc)
 	if !okA || !okB {
 		if n.Op == token.EQL || n.Op == token.NEQ {
+			if pa, isPa := a.(Ptr); isPa {
+				if pb, isPb := b.(Ptr); isPb && !pa.Nil && !pb.Nil && pa.Obj != pb.Obj {
+					// pointers into different objects are different
+					r := mkAnd(pa.nilCond(), pb.nilCond())
+					if n.Op == token.NEQ {
+						r = mkNot(r)
+					}
+					return Sc{T: r}
+				}
+			}
 			eq, ok := valueEq(a, b)
 			if !ok {
 				bail("== on values of different shape (%T, %T)", a, b)
